@@ -973,4 +973,355 @@ theorem register_layout (env : Env) :
   · simp [layoutOk, ifMap, IF_XML_ADDRESS]
   · simp [fired, sysMap]
 
+/-! ## 9. Zero-length port accesses -/
+
+private theorem rightOfRange_empty (m : MapDecl) (a : Nat) : m.rightOfRange a a = .rw := by
+  simp [MapDecl.rightOfRange]
+
+private theorem fired_empty (m : MapDecl) (a : Nat) : fired m a a = [] := by
+  unfold fired
+  rw [List.filterMap_eq_nil_iff]
+  intro x _
+  obtain ⟨lo, hi, ev⟩ := x
+  have : max a lo ≥ min a hi := Nat.le_trans (Nat.min_le_left a hi) (Nat.le_max_left a lo)
+  simp [this]
+
+/-- the pending-event queue of a module -/
+def queueOf (s : State) : Module → List Event
+  | .system => s.sysQueue
+  | .interface => s.ifQueue
+
+/-- **Zero-length reads.**  A read of 0 bytes at ANY address up to and including the end of the
+module's map (address 0, a register boundary, inside a write-only register, exactly the end)
+succeeds with no bytes — no access right is consulted for an empty range; past the end it is
+INVALID_ADDRESS.  (Interface: when it is open, as for every port access.) -/
+theorem zero_size_read (env : Env) (s : State) (m : Module) (address : Nat)
+    (ho : m = .interface → s.ifOpen = true) :
+    (asUsize address ≤ (memOf s m).length → portRead env s m address 0 = .ok []) ∧
+    (asUsize address > (memOf s m).length → portRead env s m address 0 = .err .invalidAddress) := by
+  have hlt : asUsize address < 2 ^ 64 := by unfold asUsize; exact Nat.mod_lt _ (by decide)
+  cases m with
+  | system =>
+    simp only [memOf]
+    constructor <;> intro h
+    · have h' : ¬ s.sysMem.length < asUsize address := by omega
+      simp [portRead, sysRead, checkedAdd, hlt, readRaw, rightOfRange_empty, Access.isReadable, Access.asNum,
+        slice, liftMem, h, h']
+    · simp [portRead, sysRead, checkedAdd, hlt, readRaw, liftMem, h, MemErr.toErr]
+  | interface =>
+    have hopen := ho rfl
+    simp only [memOf]
+    constructor <;> intro h
+    · have h' : ¬ s.ifMem.length < asUsize address := by omega
+      simp [portRead, ifRead, hopen, checkedAdd, hlt, readRaw, rightOfRange_empty, Access.isReadable, Access.asNum,
+        slice, liftMem, h, h']
+    · simp [portRead, ifRead, hopen, checkedAdd, hlt, readRaw, liftMem, h, MemErr.toErr]
+
+/-- `GCReadPort` with `*piSize = 0` inside the map: success, size 0, the caller's buffer untouched. -/
+theorem gcReadPort_zero_size (env : Env) (s : State) (h address : Nat) (buf : Bytes) (m : Module)
+    (hi : s.libInit = true) (hp : portOf (s.slots h) = .ok m) (ho : m = .interface → s.ifOpen = true)
+    (hin : asUsize address ≤ (memOf s m).length) :
+    step env s (.gcReadPort h address 0 buf) = .done s ⟨0, .read 0 buf⟩ := by
+  have hfree : s.slots h ≠ .freed := by
+    intro hf; rw [hf] at hp; simp [portOf] at hp
+  have h1 := (zero_size_read env s m address ho).1 hin
+  simp [step, Call.noAssert, Call.noSave, usesFreed, Call.handle?, hfree, hi, body, hp, h1, finish, ISIZE_MAX]
+
+/-- **Zero-length writes.**  A write of 0 bytes at any address up to and including the end of the
+map is accepted without consulting an access right, fires no observer and — when no event is
+pending from an earlier failed handler — changes nothing at all and returns `Ok(0)`. -/
+theorem zero_size_write (env : Env) (s : State) (m : Module) (address : Nat)
+    (ho : m = .interface → s.ifOpen = true) (hq : queueOf s m = [])
+    (hin : asUsize address ≤ (memOf s m).length) :
+    portWrite env s m address [] = (s, .ok 0) := by
+  have hlt : asUsize address < 2 ^ 64 := by unfold asUsize; exact Nat.mod_lt _ (by decide)
+  cases m with
+  | system =>
+    simp only [memOf] at hin
+    simp only [queueOf] at hq
+    have h' : ¬ s.sysMem.length < asUsize address := by omega
+    simp [portWrite, sysWrite, checkedAdd, hlt, writeRaw, rightOfRange_empty, Access.isWritable, Access.asNum,
+      splice, hin, h', fired_empty, hq, sysHandleEvents]
+    cases s; simp_all
+  | interface =>
+    have hopen := ho rfl
+    simp only [memOf] at hin
+    simp only [queueOf] at hq
+    have h' : ¬ s.ifMem.length < asUsize address := by omega
+    simp [portWrite, ifWrite, hopen, checkedAdd, hlt, writeRaw, rightOfRange_empty, Access.isWritable, Access.asNum,
+      splice, hin, h', fired_empty, hq, ifHandleEvents]
+    cases s; simp_all
+
+/-- Whatever is pending, a zero-length write inside the map leaves both register memories as they
+were (well-formed state); only a pending event's handler may report its error. -/
+theorem zero_size_write_keeps_memory (env : Env) (s : State) (m : Module) (address : Nat) (hwf : WF env s) :
+    ∀ m', memOf (portWrite env s m address []).1 m' = memOf s m' := by
+  intro m'
+  rcases port_write_exact_or_error env s m address [] hwf with ⟨e, h1, _⟩ | ⟨s', r, h1, h2, h3, h4, _⟩
+  · rw [h1]
+  · rw [h1]
+    by_cases hm : m' = m
+    · subst hm
+      simp only
+      rw [h2]
+      simp [stored]
+    · exact h3 m' hm
+
+/-- non-vacuity: the end of a 2-byte map with an empty queue -/
+example : asUsize 2 ≤ (memOf { State.init exEnv with sysMem := [1, 2] } .system).length ∧
+    queueOf { State.init exEnv with sysMem := [1, 2] } .system = [] := by decide
+
+/-! ## 10. The last error across GCCloseLib / GCInitLib -/
+
+/-- `GCCloseLib` on an initialised library succeeds and touches nothing but the flag: module
+flags, handles, register memories and the stored last error all survive. -/
+theorem close_lib_ok (env : Env) (s : State) (h : s.libInit = true) :
+    step env s .closeLib = .done { s with libInit := false } ⟨0, .plain⟩ := by
+  simp [step, Call.noAssert, Call.noSave, usesFreed, Call.handle?, body, h, finish]
+
+/-- **The last error survives re-initialisation.**  A call refused with NOT_INITIALIZED after
+`GCCloseLib` cannot be queried at once (the query itself is refused — without disturbing the
+stored error), but it IS recorded: after the next `GCInitLib` the query reports -1002.  The
+complete history, call by call, for every state, every call `c` (other than `GCInitLib` and the
+error query) and every buffer of the refused query. -/
+theorem last_error_survives_reinit (env : Env) (s : State) (c : Call) (d : Dst) (n : Nat)
+    (hi : s.libInit = true) (hc : c ≠ .initLib) (hs : c.noSave = false)
+    (ha : isAscii (Err.notInitialized.text env) = true) :
+    run env s [.closeLib, c, .getLastError d, .initLib, .getLastError ⟨none, n⟩] =
+      ([⟨0, .plain⟩, ⟨-1002, c.untouched⟩, ⟨-1002, .lastError none d⟩, ⟨0, .plain⟩,
+        ⟨0, .lastError (some (-1002)) ⟨none, (Err.notInitialized.text env).length + 1⟩⟩],
+       some { s with libInit := true, lastErr := some .notInitialized }) := by
+  have h1 := close_lib_ok env s hi
+  have h2 := not_initialized_outside env { s with libInit := false } c rfl hc
+  rw [hs] at h2
+  have h3 := not_initialized_outside env { s with libInit := false, lastErr := some .notInitialized }
+    (.getLastError d) rfl (by simp)
+  have h4 := init_ok env { s with libInit := false, lastErr := some .notInitialized } rfl
+  have h5 := last_error_query env { s with libInit := true, lastErr := some .notInitialized } .notInitialized
+    ⟨none, n⟩ rfl rfl ha (by simp)
+  simp only [Bool.false_eq_true, if_false] at h2
+  simp only [Call.noSave, if_true, Call.untouched] at h3
+  simp only [Option.map_none] at h5
+  simp [run, h1, h2, h3, h4, h5, Err.code]
+
+/-- The same across ANY history: whatever calls follow a failing call — closing and
+re-initialising the library any number of times, error queries (answered or refused), any call
+that succeeds — the stored error is still that call's until another call fails. -/
+theorem last_error_survives_history (env : Env) (cs : List Call) (s s' : State) (rs : List Result) (e : Err)
+    (he : s.lastErr = some e) (hrun : run env s cs = (rs, some s'))
+    (hok : ∀ cr ∈ cs.zip rs, cr.2.code = 0 ∨ cr.1.noSave = true) :
+    s'.lastErr.map Err.code = some e.code := by
+  rw [last_error_tracks_history env cs s rs s' hrun, he]
+  simp only [lastFailure, Option.map_some]
+  generalize cs.zip rs = l at hok
+  induction l with
+  | nil => rfl
+  | cons x xs ih =>
+    simp only [List.foldl_cons]
+    have hx := hok x List.mem_cons_self
+    have : ¬ (x.2.code ≠ 0 ∧ x.1.noSave = false) := by
+      rintro ⟨h1, h2⟩
+      rcases hx with h | h
+      · exact h1 h
+      · rw [h] at h2; cases h2
+    rw [if_neg this]
+    exact ih (fun cr hcr => hok cr (List.mem_cons_of_mem _ hcr))
+
+/-- non-vacuity: the C19-r3-seed1 scenario — `TLOpen` after `GCCloseLib` -/
+example : (Call.tlOpen 0) ≠ .initLib ∧ (Call.tlOpen 0).noSave = false ∧
+    isAscii (Err.notInitialized.text exEnv) = true := ⟨by simp, rfl, by decide⟩
+
+/-! ## 11. The stacked variants transfer exactly, entry by entry -/
+
+/-- the caller's buffer of a stacked read entry `(address, size, buffer)` after that entry was
+transferred: exactly the `size` bytes of the map at `address`, then the rest of the buffer -/
+def transferred (s : State) (m : Module) (e : Nat × Nat × Bytes) : Bytes :=
+  ((memOf s m).drop (asUsize e.1)).take e.2.1 ++ e.2.2.drop e.2.1
+
+private theorem readStacked_spec (env : Env) (s : State) (m : Module) (es : List (Nat × Nat × Bytes)) :
+    ∀ (n : Nat) (acc : List Bytes), es.all (fun e => decide (e.2.1 ≤ e.2.2.length)) = true →
+    ∃ k, k ≤ es.length ∧
+      (∀ x ∈ es.take k, asUsize x.1 + x.2.1 ≤ (memOf s m).length) ∧
+      ((k = es.length ∧
+          readStacked env s m es n acc = (n + es.length, acc ++ es.map (transferred s m), .ok ())) ∨
+       (k < es.length ∧ ∃ err, (err = .invalidAddress ∨ err = .accessDenied ∨ err = .notInitialized) ∧
+          readStacked env s m es n acc =
+            (n + k, acc ++ (es.take k).map (transferred s m) ++ (es.drop k).map (·.2.2), .err err))) := by
+  induction es with
+  | nil => intro n acc _; exact ⟨0, Nat.le_refl _, by simp, Or.inl ⟨rfl, by simp [readStacked]⟩⟩
+  | cons x es ih =>
+    intro n acc hh
+    obtain ⟨a, size, buf⟩ := x
+    simp only [List.all_cons, Bool.and_eq_true, decide_eq_true_eq] at hh
+    have herr : ∀ err, portRead env s m a size = .err err →
+        (err = .invalidAddress ∨ err = .accessDenied ∨ err = .notInitialized) →
+        ∃ k, k ≤ ((a, size, buf) :: es).length ∧
+          (∀ x ∈ ((a, size, buf) :: es).take k, asUsize x.1 + x.2.1 ≤ (memOf s m).length) ∧
+          ((k = ((a, size, buf) :: es).length ∧
+              readStacked env s m ((a, size, buf) :: es) n acc =
+                (n + ((a, size, buf) :: es).length, acc ++ ((a, size, buf) :: es).map (transferred s m), .ok ())) ∨
+           (k < ((a, size, buf) :: es).length ∧ ∃ err, (err = .invalidAddress ∨ err = .accessDenied ∨ err = .notInitialized) ∧
+              readStacked env s m ((a, size, buf) :: es) n acc =
+                (n + k, acc ++ (((a, size, buf) :: es).take k).map (transferred s m) ++
+                  (((a, size, buf) :: es).drop k).map (·.2.2), .err err))) := by
+      intro err h1 hc
+      refine ⟨0, Nat.zero_le _, by simp, Or.inr ⟨by simp, err, hc, ?_⟩⟩
+      simp [readStacked, h1]
+    rcases port_read_exact_or_error env s m a size with ⟨h1, h2⟩ | h1 | h1 | ⟨h1, _⟩
+    · have hl := port_read_length env s m a size _ h1
+      obtain ⟨k, hk, hin, hres⟩ := ih (n + 1)
+        (acc ++ [((memOf s m).drop (asUsize a)).take size ++ buf.drop size]) hh.2
+      have hstep : readStacked env s m ((a, size, buf) :: es) n acc =
+          readStacked env s m es (n + 1) (acc ++ [((memOf s m).drop (asUsize a)).take size ++ buf.drop size]) := by
+        simp only [readStacked, h1, hh.1, if_true, hl]
+      refine ⟨k + 1, by simp; omega, ?_, ?_⟩
+      · intro x hx
+        simp only [List.take_succ_cons, List.mem_cons] at hx
+        rcases hx with rfl | hx
+        · exact h2
+        · exact hin x hx
+      · rcases hres with ⟨hk', hr⟩ | ⟨hk', err, hc, hr⟩
+        · left
+          refine ⟨by simp [hk'], ?_⟩
+          rw [hstep, hr]
+          simp [transferred, Nat.add_assoc, Nat.add_comm 1]
+        · right
+          refine ⟨by simp; omega, err, hc, ?_⟩
+          rw [hstep, hr]
+          simp [transferred, Nat.add_assoc, Nat.add_comm 1]
+    · exact herr _ h1 (Or.inl rfl)
+    · exact herr _ h1 (Or.inr (Or.inl rfl))
+    · exact herr _ h1 (Or.inr (Or.inr rfl))
+
+/-- **GCReadPortStacked is exact.**  Entries are processed in order.  There is a number `k` of
+completed entries: each of the first `k` lies inside the map and its buffer now starts with
+exactly the map's bytes of its range (rest of the buffer untouched).  Either `k` is the number of
+entries, the call returns success and `*piNumEntries` is unchanged (= all of them); or entry `k`
+is the first that fails, the call returns THAT entry's error (INVALID_ADDRESS / ACCESS_DENIED /
+NOT_INITIALIZED), `*piNumEntries = k`, and the buffers of entry `k` and of all later entries are
+untouched.  (Sizes a buffer can have, honest buffers, a live port handle.) -/
+theorem read_port_stacked_exact (env : Env) (s : State) (h : Nat) (es : List (Nat × Nat × Bytes)) (m : Module)
+    (hi : s.libInit = true) (hp : portOf (s.slots h) = .ok m)
+    (hsz : es.any (fun e => decide (e.2.1 > ISIZE_MAX)) = false)
+    (hh : es.all (fun e => decide (e.2.1 ≤ e.2.2.length)) = true) :
+    ∃ k, k ≤ es.length ∧
+      (∀ x ∈ es.take k, asUsize x.1 + x.2.1 ≤ (memOf s m).length) ∧
+      ((k = es.length ∧ step env s (.gcReadPortStacked h es) =
+          .done s ⟨0, .readStacked es.length (es.map (transferred s m))⟩) ∨
+       (k < es.length ∧ ∃ err, (err = .invalidAddress ∨ err = .accessDenied ∨ err = .notInitialized) ∧
+          step env s (.gcReadPortStacked h es) =
+            .done { s with lastErr := some err }
+              ⟨err.code, .readStacked k ((es.take k).map (transferred s m) ++ (es.drop k).map (·.2.2))⟩)) := by
+  have hfree : s.slots h ≠ .freed := by
+    intro hf; rw [hf] at hp; simp [portOf] at hp
+  obtain ⟨k, hk, hin, hres⟩ := readStacked_spec env s m es 0 [] hh
+  refine ⟨k, hk, hin, ?_⟩
+  rcases hres with ⟨hk', hr⟩ | ⟨hk', err, hc, hr⟩
+  · left
+    refine ⟨hk', ?_⟩
+    simp [step, Call.noAssert, Call.noSave, usesFreed, Call.handle?, hfree, hi, body, hsz, hp, hr, finish]
+  · right
+    refine ⟨hk', err, hc, ?_⟩
+    simp [step, Call.noAssert, Call.noSave, usesFreed, Call.handle?, hfree, hi, body, hsz, hp, hr, finish]
+
+/-- register memory after the data of the write entries `(address, size, data)` were stored one
+after the other, in order -/
+def storedAll (mem : Bytes) (es : List (Nat × Nat × Bytes)) : Bytes :=
+  es.foldl (fun mem e => stored mem (asUsize e.1) e.2.2) mem
+
+private theorem writeStacked_spec (env : Env) (m : Module) (es : List (Nat × Nat × Bytes)) :
+    ∀ (s : State) (n : Nat), WF env s → es.all (fun e => decide (e.2.2.length = e.2.1)) = true →
+    ∃ k s', k ≤ es.length ∧ (∀ m', m' ≠ m → memOf s' m' = memOf s m') ∧
+      ((k = es.length ∧ writeStacked env m s es n = (s', n + es.length, .ok ()) ∧
+          memOf s' m = storedAll (memOf s m) es) ∨
+       (k < es.length ∧ ∃ err, writeStacked env m s es n = (s', n + k, .err err) ∧
+          (((err = .invalidAddress ∨ err = .accessDenied ∨ err = .notInitialized) ∧
+              memOf s' m = storedAll (memOf s m) (es.take k)) ∨
+           ((err = .invalidIndex ∨ err = .notImplemented) ∧
+              memOf s' m = storedAll (memOf s m) (es.take (k + 1)))))) := by
+  induction es with
+  | nil =>
+    intro s n _ _
+    exact ⟨0, s, Nat.le_refl _, fun _ _ => rfl, Or.inl ⟨rfl, by simp [writeStacked], rfl⟩⟩
+  | cons x es ih =>
+    intro s n hwf hh
+    obtain ⟨a, size, data⟩ := x
+    simp only [List.all_cons, Bool.and_eq_true, decide_eq_true_eq] at hh
+    have e1 : portWriteSized env s m a size data = portWrite env s m a data := by
+      simp [portWriteSized, hh.1]
+    rcases port_write_exact_or_error env s m a data hwf with ⟨e, h1, hc⟩ | ⟨s1, r, h1, hmem, hoth, _, hr⟩
+    · -- refused: nothing changed
+      refine ⟨0, s, Nat.zero_le _, fun _ _ => rfl, Or.inr ⟨by simp, e, ?_, Or.inl ⟨?_, by simp [storedAll]⟩⟩⟩
+      · simp [writeStacked, e1, h1]
+      · rcases hc with h | h | ⟨h, _⟩
+        · exact Or.inl h
+        · exact Or.inr (Or.inl h)
+        · exact Or.inr (Or.inr h)
+    · rcases hr with rfl | rfl | ⟨rfl, _⟩
+      · -- stored, Ok: go on with the next entry
+        have hwf1 : WF env s1 := portWrite_eq_wf hwf h1
+        obtain ⟨k, s', hk, hoth', hres⟩ := ih s1 (n + 1) hwf1 hh.2
+        have hstep : writeStacked env m s ((a, size, data) :: es) n = writeStacked env m s1 es (n + 1) := by
+          simp [writeStacked, e1, h1]
+        refine ⟨k + 1, s', by simp; omega, fun m' hm => (hoth' m' hm).trans (hoth m' hm), ?_⟩
+        rcases hres with ⟨hk', hr, hm⟩ | ⟨hk', err, hr, hm⟩
+        · left
+          refine ⟨by simp [hk'], ?_, ?_⟩
+          · rw [hstep, hr]; simp [Nat.add_assoc, Nat.add_comm 1]
+          · rw [hm, hmem]; simp [storedAll]
+        · right
+          refine ⟨by simp; omega, err, ?_, ?_⟩
+          · rw [hstep, hr]; simp [Nat.add_assoc, Nat.add_comm 1]
+          · rcases hm with ⟨hc, hm⟩ | ⟨hc, hm⟩
+            · exact Or.inl ⟨hc, by rw [hm, hmem]; simp [storedAll]⟩
+            · exact Or.inr ⟨hc, by rw [hm, hmem]; simp [storedAll]⟩
+      · -- stored, then the triggered action failed: this entry's bytes are in place
+        refine ⟨0, s1, Nat.zero_le _, hoth, Or.inr ⟨by simp, .invalidIndex, ?_, Or.inr ⟨Or.inl rfl, ?_⟩⟩⟩
+        · simp [writeStacked, e1, h1]
+        · simp [storedAll, hmem]
+      · refine ⟨0, s1, Nat.zero_le _, hoth, Or.inr ⟨by simp, .notImplemented, ?_, Or.inr ⟨Or.inr rfl, ?_⟩⟩⟩
+        · simp [writeStacked, e1, h1]
+        · simp [storedAll, hmem]
+
+/-- **GCWritePortStacked is exact.**  Entries are processed in order.  There is a number `k` of
+completed entries and a state `s'` after the call in which the OTHER module's map is unchanged
+and this module's map is the old one with the data of the completed entries stored one after the
+other (`storedAll`).  Either all entries completed: success, `*piNumEntries` unchanged; or entry
+`k` is the first that fails: the call returns that entry's error, `*piNumEntries = k`, no later
+entry was touched, and entry `k` itself either was refused and changed nothing (INVALID_ADDRESS /
+ACCESS_DENIED / NOT_INITIALIZED) or was stored and the action it triggered failed (INVALID_INDEX /
+NOT_IMPLEMENTED — as for the single write).  (Well-formed state, possible sizes, honest data.) -/
+theorem write_port_stacked_exact (env : Env) (s : State) (h : Nat) (es : List (Nat × Nat × Bytes)) (m : Module)
+    (hwf : WF env s) (hi : s.libInit = true) (hp : portOf (s.slots h) = .ok m)
+    (hsz : es.any (fun e => decide (e.2.1 > ISIZE_MAX)) = false)
+    (hh : es.all (fun e => decide (e.2.2.length = e.2.1)) = true) :
+    ∃ k s', k ≤ es.length ∧ (∀ m', m' ≠ m → memOf s' m' = memOf s m') ∧
+      ((k = es.length ∧ memOf s' m = storedAll (memOf s m) es ∧
+          step env s (.gcWritePortStacked h es) = .done s' ⟨0, .writeStacked es.length⟩) ∨
+       (k < es.length ∧ ∃ err,
+          step env s (.gcWritePortStacked h es) =
+            .done { s' with lastErr := some err } ⟨err.code, .writeStacked k⟩ ∧
+          (((err = .invalidAddress ∨ err = .accessDenied ∨ err = .notInitialized) ∧
+              memOf s' m = storedAll (memOf s m) (es.take k)) ∨
+           ((err = .invalidIndex ∨ err = .notImplemented) ∧
+              memOf s' m = storedAll (memOf s m) (es.take (k + 1)))))) := by
+  have hfree : s.slots h ≠ .freed := by
+    intro hf; rw [hf] at hp; simp [portOf] at hp
+  obtain ⟨k, s', hk, hoth, hres⟩ := writeStacked_spec env m es s 0 hwf hh
+  refine ⟨k, s', hk, hoth, ?_⟩
+  rcases hres with ⟨hk', hr, hm⟩ | ⟨hk', err, hr, hm⟩
+  · left
+    refine ⟨hk', hm, ?_⟩
+    simp [step, Call.noAssert, Call.noSave, usesFreed, Call.handle?, hfree, hi, body, hsz, hp, hr, finish]
+  · right
+    refine ⟨hk', err, ?_, hm⟩
+    simp [step, Call.noAssert, Call.noSave, usesFreed, Call.handle?, hfree, hi, body, hsz, hp, hr, finish]
+
+/-- non-vacuity: two honest entries of possible sizes -/
+example : ([(1028, 4, [0, 0, 0, 0]), (0, 1, [7])] : List (Nat × Nat × Bytes)).any
+      (fun e => decide (e.2.1 > ISIZE_MAX)) = false ∧
+    ([(1028, 4, [0, 0, 0, 0]), (0, 1, [7])] : List (Nat × Nat × Bytes)).all
+      (fun e => decide (e.2.2.length = e.2.1)) = true ∧
+    storedAll [1, 2, 3] [(0, 1, [9]), (2, 1, [8])] = [9, 2, 8] := by decide
+
 end CamVerif.C19
